@@ -9,6 +9,7 @@ import (
 	"github.com/go-kid/ioc/app"
 	"github.com/go-kid/ioc/component_definition"
 	"github.com/go-kid/ioc/configure"
+	"github.com/go-kid/ioc/configure/binder"
 	"github.com/go-kid/ioc/util/framework_helper"
 	"pgregory.net/rapid"
 	"verif/harness/kit"
@@ -381,6 +382,61 @@ func TestPostProcessors(t *testing.T) {
 			t.Fatalf("after-instantiation sequence on the probe: %v", err)
 		}
 		d, nt, labels := describe("postprocessors", specs)
+		kit.Rec.Case(d, nt, labels...)
+	})
+}
+
+
+// ---- loaders, multi-step: initialise, add loaders, initialise again -------------------------------
+
+func TestLoadersReinit(t *testing.T) {
+	kit.Rec.Rule(rule)
+	rapid.Check(t, func(t *rapid.T) {
+		first := genSpecs(t, 6)
+		second := genSpecs(t, 6)
+		specs := append(append([]spec{}, first...), second...)
+		var log []int
+		mk := func(i int, s spec) configure.Loader {
+			pi := pinfo{id: i, class: s.Class, ord: s.Ord, log: &log}
+			switch s.Class {
+			case 0:
+				return &LoadPO{PO{pi}}
+			case 1:
+				return &LoadOO{OO{pi}}
+			}
+			return &LoadNO{NO{pi}}
+		}
+		c := configure.NewConfigure()
+		c.SetBinder(binder.NewViperBinder("yaml"))
+		var ls []configure.Loader
+		for i, s := range first {
+			ls = append(ls, mk(i, s))
+		}
+		useSet := rapid.Bool().Draw(t, "useset")
+		if useSet {
+			c.SetLoaders(ls...)
+		} else {
+			c.AddLoaders(ls...)
+		}
+		if err := c.Initialize(); err != nil {
+			t.Fatalf("Initialize: %v", err)
+		}
+		if err := checkSeq(first, log); err != nil {
+			t.Fatalf("first initialisation: loader sequence: %v", err)
+		}
+		log = nil
+		var ls2 []configure.Loader
+		for i, s := range second {
+			ls2 = append(ls2, mk(len(first)+i, s))
+		}
+		c.AddLoaders(ls2...)
+		if err := c.Initialize(); err != nil {
+			t.Fatalf("Initialize: %v", err)
+		}
+		if err := checkSeq(specs, log); err != nil {
+			t.Fatalf("second initialisation after AddLoaders (first batch %v, added %v): loader sequence: %v", first, second, err)
+		}
+		d, nt, labels := describe("loaders-reinit", specs)
 		kit.Rec.Case(d, nt, labels...)
 	})
 }
